@@ -741,7 +741,7 @@ impl LanguageHooks for StdHooks06 {
     fn has_registers(&self) -> bool { false }
 
     fn encode_label(&self, _cur: raw::BytePos, dest_offset: raw::BytePos) -> raw::RawDwordBits {
-        assert_eq!(dest_offset % 20, 0);
+        // (instructions here are always 20 bytes; any that is not is reported by `write_instr`)
         (dest_offset / 20) as u32
     }
     fn decode_label(&self, _cur: raw::BytePos, bits: raw::RawDwordBits) -> raw::BytePos {
@@ -769,11 +769,16 @@ impl InstrFormat for StdHooks06 {
         Ok(ReadInstr::Instr(RawInstr { time, opcode: opcode as _, param_mask: 0, args_blob, ..RawInstr::DEFAULTS }))
     }
 
-    fn write_instr(&self, f: &mut BinWriter, _: &dyn Emitter, instr: &RawInstr) -> WriteResult {
+    fn write_instr(&self, f: &mut BinWriter, emitter: &dyn Emitter, instr: &RawInstr) -> WriteResult {
+        if instr.args_blob.len() != 12 {
+            return Err(emitter.as_sized().emit(error!(
+                "ins_{} has {} bytes of arguments, but instructions in this game's STD format must have exactly 12",
+                instr.opcode, instr.args_blob.len(),
+            )));
+        }
         f.write_i32(instr.time)?;
         f.write_u16(instr.opcode)?;
         f.write_u16(12)?;  // this version writes argsize rather than instr size
-        assert_eq!(instr.args_blob.len(), 12);
         f.write_all(&instr.args_blob)?;
         Ok(())
     }
